@@ -8,6 +8,7 @@ import (
 	"math"
 	"math/big"
 	"strconv"
+	"unicode/utf8"
 
 	"github.com/ohler55/slip"
 	"golang.org/x/text/cases"
@@ -118,9 +119,10 @@ func (c *control) process() {
 
 func (c *control) readDir() {
 	var (
-		colon  bool
-		at     bool
-		params []any
+		colon    bool
+		at       bool
+		params   []any
+		hasParam bool // a parameter was read since the last comma
 	)
 	c.pos++ // move past ~
 	for c.pos < c.end {
@@ -141,12 +143,13 @@ func (c *control) readDir() {
 			if colon || at {
 				c.invalidDir(c.str, c.pos-1)
 			}
-			prev := c.str[c.pos-2]
-			if prev == '~' || prev == ',' {
+			if !hasParam {
 				params = append(params, nil)
 			}
+			hasParam = false
 		case '#':
 			params = append(params, len(c.args)-c.argPos)
+			hasParam = true
 		case 'v':
 			var p any
 			if 0 <= c.argPos {
@@ -154,14 +157,22 @@ func (c *control) readDir() {
 				c.argPos++
 			}
 			params = append(params, p)
+			hasParam = true
 		case '\'':
-			p := c.readParam()
-			params = append(params, slip.ReadCharacter(p))
+			// A quoted character parameter is exactly the one character after the quote.
+			r, size := utf8.DecodeRune(c.str[c.pos:c.end])
+			if size == 0 {
+				c.invalidDir(c.str, c.pos)
+			}
+			c.pos += size
+			params = append(params, slip.Character(r))
+			hasParam = true
 		case '-', '0', '1', '2', '3', '4', '5', '6', '7', '8', '9':
 			c.pos--
 			p := c.readParam()
 			if n, err := strconv.ParseInt(string(p), 10, 64); err == nil {
 				params = append(params, int(n))
+				hasParam = true
 			} else {
 				slip.ErrorPanic(c.scope, 0, "invalid directive at %d of %q. %s", c.pos-1, c.str, err)
 			}
